@@ -805,6 +805,32 @@ class Engine:
             flow_updates, deletions, view_expire
         ) = self.state.apply_update(update, state)
 
+        if deletions:
+            # What the update created may have been removed again by the
+            # same update (a compartment generated and deleted, a
+            # daughter that takes the mother's key): only what the store
+            # still holds is registered.
+            def held(path: HierarchyPath, value: Any = None) -> bool:
+                try:
+                    node = self.state.get_path(path)
+                except Exception:  # pylint: disable=broad-except
+                    return False
+                return value is None or node.value is value
+
+            process_updates = [
+                (path, process) for path, process in process_updates
+                if held(path, process)]
+            step_updates = [
+                (path, step) for path, step in step_updates
+                if held(path, step)]
+            topology_updates = [
+                (path, topology_update)
+                for path, topology_update in topology_updates
+                if held(path)]
+            flow_updates = [
+                (path, flow_update) for path, flow_update in flow_updates
+                if held(path)]
+
         process_updates = [
             (path, self._parallelize_processes(process))
             for path, process in process_updates
@@ -840,6 +866,12 @@ class Engine:
                             for deletion in deletions)):
                     moved_fronts[path] = self.front.pop(old_path)
 
+        # What left its place goes first: the same update may have put
+        # something new there.
+        if deletions:
+            for deletion in deletions:
+                self._delete_path(deletion)
+
         if topology_updates:
             for path, topology_update in topology_updates:
                 assoc_path(self.topology, path, topology_update)
@@ -865,10 +897,6 @@ class Engine:
                 dependencies = flow_update_dict.get(path)
                 assoc_path(self.steps, path, step)
                 self._add_step_path(step, path, dependencies)
-
-        if deletions:
-            for deletion in deletions:
-                self._delete_path(deletion)
 
         for path, entry in moved_fronts.items():
             if path in self.process_paths:
